@@ -90,7 +90,7 @@ def parse_overlay(text, fname='<overlay>'):
         kind, _, rest = head.partition(' ')
         rest = rest.strip()
         if kind == 'file':
-            f = files.setdefault(rest, {'module': None, 'keep': [], 'drop_use': [], 'extra': [], 'item_extra': {}})
+            f = files.setdefault(rest, {'module': None, 'keep': [], 'drop_use': [], 'extra': [], 'item_extra': {}, 'lifts': []})
             for _, h2, b2 in _blocks(body):
                 k2, _, r2 = h2.partition(' ')
                 r2 = r2.strip()
@@ -102,6 +102,11 @@ def parse_overlay(text, fname='<overlay>'):
                     f['drop_use'].append(r2.strip('"'))
                 elif k2 == 'flavours':
                     f['flavours'] = r2.split()
+                elif k2 == 'lift':
+                    # lift <at> | <callee>#<k> | <fn signature>
+                    at, ck, sig = [x.strip() for x in r2.split('|', 2)]
+                    callee, _, k = ck.partition('#')
+                    f['lifts'].append({'in': at, 'callee': callee, 'k': int(k or 1), 'sig': sig})
                 elif k2 == 'extra':
                     f['extra'].append(_dedent(b2))
                 elif k2 == 'item_extra':
